@@ -7,7 +7,7 @@ import math
 from lib import common
 from lib.common import Corr
 
-RULE = ("call sequences (same a / changing m, same m / changing a, interleaved jacobi-sqrt-inverse) each result against the oracle; jacobi on odd composite n >= 2^160 with known factorisation (p*q, p*q*r, p^2, p^3, Carmichael-like, 3*p_curve); jacobi: every odd n in [3, 2000) x a in [-n-2, 2n+2] (quick: a stride sample of n) + even/small n (assertions) + curve "
+RULE = ("call sequences (same a / changing m, same m / changing a, interleaved jacobi-sqrt-inverse) each result against the oracle; jacobi on odd composite n >= 2^160 with known factorisation (p*q, p*q*r, p^2, p^3, Carmichael-like, 3*p_curve, and 513-1100-bit p*q, p^2, p_curve*n_curve; a sharing a factor with n (oracle 0) and coprime a); jacobi: every odd n in [3, 2000) x a in [-n-2, 2n+2] (quick: a stride sample of n) + even/small n (assertions) + curve "
         "primes/orders with random a; sqrt: every prime p < 2000 x all a (quick: every prime < 400 and all p = 1 mod 8 below 2000 with a "
         "sample of a), the 34 curve primes and orders with residues and non-residues, out-of-range a, p = 2, composite-free; "
         "inverse_mod: m in [-6, 200) x a in [-2m-1, 2m+1], large m with negative/zero/oversized a, non-coprime pairs, m = 0, 1, -1; "
@@ -325,6 +325,17 @@ def big_composites(ctx):
         p = cv.curve.p()
         if p.bit_length() >= 158:
             out.append((3 * p, [3, p]))
+    # moduli of 513-1100 bits (a shared factor with a must give 0)
+    for _ in range(2 if ctx.quick else 8):
+        b1 = rng.choice([260, 300, 400, 550])
+        p, q = _rand_prime(rng, b1), _rand_prime(rng, b1 + rng.choice([0, 5, 40]))
+        out.append((p * q, [p, q]))
+        out.append((p * p, [p, p]))
+    for cv in curves:
+        p = cv.curve.p()
+        if p.bit_length() >= 512:
+            out.append((3 * p, [3, p]))
+            out.append((p * cv.order, [p, cv.order] if p != cv.order else [p, p]))
     return [(n, f) for (n, f) in out if n.bit_length() > 160]
 
 
@@ -381,7 +392,9 @@ def search_round2(ctx, nt):
                 break
     # Jacobi symbol for large composite moduli = product of Legendre symbols over the known factorisation
     for n, f in big_composites(ctx):
-        avals = [2, 3, 5, -1, n - 1, n + 2, f[0], 2 * f[-1], f[0] + 1] + [ctx.rng.getrandbits(ctx.rng.choice([20, 170, 300])) * ctx.rng.choice([1, -1]) for _ in range(8 if ctx.quick else 30)]
+        k = ctx.rng.getrandbits(40) | 1
+        # a sharing a factor with n (symbol 0): a = p, p*k, q^2, -q, 0, n, multiples of n
+        avals = [f[0], f[0] * k, f[-1] * f[-1], -f[-1], 0, n, 3 * n, f[0] * f[-1] * k] + [2, 3, 5, -1, n - 1, n + 2, 2 * f[-1], f[0] + 1] + [ctx.rng.getrandbits(ctx.rng.choice([20, 170, 300])) * ctx.rng.choice([1, -1]) for _ in range(8 if ctx.quick else 30)]
         # structured: squares (symbol 1 or 0) and non-residues modulo exactly one factor
         x = ctx.rng.randrange(2, n)
         avals += [x * x % n, x * x]
@@ -389,6 +402,7 @@ def search_round2(ctx, nt):
             n_eval += 1
             ctx.hist("search", "jacobi.bigcomposite")
             b = check_jacobi(nt, a, n, f)
+            ctx.hist("search", "jacobi.big.%s" % ("shared" if math.gcd(a, n) > 1 else "coprime"))
             if b:
                 rec = {"input": {"fn": "jacobi", "a": a, "n": n, "factors": f}, "observed": b["got"], "expected": b["expected"]}
                 ctx.violation(rec)
